@@ -57,7 +57,12 @@ def observe (H : Bytes → Nat) (f : Filter) (qs : List Bytes) (items : Option (
       let hv := Spec.hashedValues H f.modulusNP its
       (qs.map (fun q => hv.contains (Spec.mulhi (H q) f.modulusNP))) == m
   if !specOk then "model-spec-mismatch" else
-  s!"m={bitsStr m} zip={bit (f.zipMatchAny H qs)} hash={bit (f.hashMatchAny H qs)} any={bit (f.matchAny H qs)}"
+  let z := f.zipMatchAny H qs
+  let h := f.hashMatchAny H qs
+  -- where the two strategies disagree (a stream whose N does not cover the data) MatchAny's
+  -- heuristic choice is not part of the observation
+  let a := if z == h then bit (f.matchAny H qs) else "*"
+  s!"m={bitsStr m} zip={bit z} hash={bit h} any={a}"
 
 /-- read up to `max` Golomb-Rice values (no running sum), as `VerifReadAll` does -/
 def readAll (p : Nat) : Nat → List Bool → List Nat
